@@ -307,6 +307,34 @@ def generate(tier, seed, ctx):
                     vec_hist(d0, ["%s:%d" % (mk, d)], d)
         vec_hist(d0, ["resize:0", "resize:%d" % (d0 + 2)], d0 + 2)
         vec_hist(d0, ["assign:7", "resize:2", "set:3"], 3)
+    # ---- 2c. moved / swapped / container-held objects: requests relative to the shape the object REPORTS -------------------------
+    def move_hists(op, shapes_txt, npool):
+        base = "%s %d %s" % (op, npool, shapes_txt)
+        H = lambda steps: add("%s %d %s" % (base, len(steps), " ".join(steps)))
+        use_all = ["use:%d" % s_ for s_ in range(npool)]
+        for mv in ("mc:0:1", "ma:0:1", "pb:0:1", "sw:0:1", "cp:0:1", "mc:0:0", "ma:2:0", "pb:1:1"):
+            H([mv] + use_all)
+            H([mv, "use:0", "grow:0:2", "use:0", "use:1"])
+            H([mv, "grow:1:1", "use:1", "use:0"])
+            H([mv, "use:0", "atsize:0"])
+            H([mv, "use:1", "atsize:1"])
+        H(["mc:0:1", "mc:1:2", "mc:2:0"] + use_all)
+        H(["ma:0:1", "sw:1:2", "pb:2:0", "pb:0:1"] + use_all + ["atsize:2"])
+        H(["pb:0:1", "pb:1:2", "pb:2:0", "grow:0:1"] + use_all)
+        for _ in range(12 if thorough else 4):
+            st = []
+            for _k in range(rng.randint(2, 5)):
+                st.append("%s:%d:%d" % (rng.choice(["mc", "ma", "pb", "sw", "cp"]), rng.randrange(npool), rng.randrange(npool)))
+                if rng.random() < 0.5:
+                    st.append(rng.choice(["use:%d" % rng.randrange(npool), "grow:%d:%d" % (rng.randrange(npool), rng.randint(0, 2))]))
+            st += use_all
+            if rng.random() < 0.4:
+                st.append("atsize:%d" % rng.randrange(npool))
+            H(st)
+    for dims in ((3, 0, 5), (1, 4, 2), (0, 0, 3)):
+        move_hists("c10.vec.move", " ".join(str(d) for d in dims), 3)
+    for shp in (((2, 3), (3, 2), (1, 1)), ((3, 1), (0, 0), (2, 2)), ((4, 2), (2, 4), (0, 3))):
+        move_hists("c10.mat.move", " ".join("%d %d" % p_ for p_ in shp), 3)
     # ---- 3. Interpolation ---------------------------------------------------------------------------
     def inc(n, uniform=False):
         x = float(rng.randint(-8, 8))
@@ -745,6 +773,8 @@ def meaningful(rq):
             return n(0) >= 0 and n(1) >= 0
         if op == "integmc.shape":
             return a[0][2:] in METHODS_MC and n(2) > 0 and n(2) % 2 == 0 and n(1) >= (2 if a[0][2:] == "Vegas" else 1)
+        if op in ("vec.move", "mat.move"):
+            return not any(v.startswith("atsize:") for v in a)
         if op == "interp.ctornan":
             return False
         if op == "simplex.delta":
